@@ -28,6 +28,7 @@ type Ctx struct {
 	acqMemo   map[*ssa.Function]map[string]bool
 	aliasMemo *aliasGraph
 	errMemo   *errFlow
+	probes    []probe
 }
 
 func NewCtx(p *load.Program, prop, tier string) *Ctx {
